@@ -201,6 +201,9 @@ def _ortho_grid(tier):
                         if cplx and (tier == 'quick') and (i % 4 or mr != 1):
                             continue
                         out.append({'shape': s, 'which': which, 'use_theta': use_theta, 'max_rank': mr, 'cplx': cplx})
+            if i % 5 == 0 or tier != 'quick':       # mixed dtypes per core
+                for mask in ('first', 'last'):
+                    out.append({'shape': s, 'which': which, 'use_theta': False, 'max_rank': 1, 'cplx': mask})
     return out
 
 
